@@ -7,6 +7,9 @@ CHECKS = {
  'C01': {'technique': 'symbolic execution of the real Epoch source over symbolic (year, day) per month; z3 LIA decides round trip / refusal / independent day count on every path; QF_FPBV cut lemmas tie exact arithmetic to IEEE',
          'text': 'Bounded symbolic model checking of the real code: for every year -4712..6000 and integer day 0..33 of each month, on every explored path the solver shows get_date(Epoch(y,m,d)) == (y,m,d), ValueError exactly for days outside the month, and jde() == an independently written day count (which the solver shows to be +1 per civil day incl. 4->15 Oct 1582). Anchors are ground instances. A sat answer is replayed on the unmodified library before it is reported.',
          'note': Q_NOTE + ' Outside: month names beyond the enumerated spellings, fractional days (C02), years > 6000.'},
+ 'C16': {'technique': 'symbolic execution of the real Epoch.dow/get_doy/doy2date/year/mean_sidereal_time over symbolic dates, day numbers and times of day; z3 LIA/LRA decides each clause against an independent day count; composition through verified summaries; QF_FPBV cut lemmas',
+         'text': 'Bounded symbolic model checking of the real code: weekday = (day number + 1) mod 7 for every day number and time of day, JDE(date,time) = independent day count, get_doy = JDE difference to 1 January + 1 and doy2date its inverse for every civil date -4712..6000 (1582 excluded), year() affine-increasing in JDE with integer part the calendar year; sidereal time in [0,1) for every JDE in [0,5.4e6], rate/IAU-1982 agreement for 12 concrete day numbers with symbolic time of day, equation of the equinoxes structural and < 1.2 s.',
+         'note': Q_NOTE + ' datetime.date is replaced by a model (CPython algorithms; declarative fromordinal) validated against the real module at every run. year() is explored with get_date() replaced by its verified summary. Outside: sidereal rate/IAU agreement for symbolic day numbers; IEEE rounding inside mean_sidereal_time.'},
 }
 NA = {
  'C09': 'both sides of every clause are values of thousand-term VSOP87/Pluto series (or of a numeric fixed-point iteration) at different symbolic epochs: no SMT encoding within reach, and stubbing the series dissolves the claim (DESIGN.md section 4)',
